@@ -1,6 +1,7 @@
 import Driver.SeqDrv
 import Driver.SmallDrv
 import Driver.SortDrv
+import Driver.SetDrv
 open Lean Drv
 
 def handle (line : String) : String :=
@@ -12,6 +13,7 @@ def handle (line : String) : String :=
     | "stack" => stackLine j
     | "iter" => iterLine j
     | "sort" => sortLine j
+    | "set" => setLine j
     | k => verdict false true "bad-kind" k
 
 partial def loop (h : IO.FS.Stream) (out : IO.FS.Stream) : IO Unit := do
